@@ -110,7 +110,7 @@ def gen_cfg(rng, max_vars=4, max_terms=3, max_prods=7, max_body=4, profile=None,
     alias = {rng.pick(vs): rng.pick(ts)} if (ts and not strings_only and not reserved and rng.chance(0.05)) else None
     return {"vars": vs, "terms": ts, "start": start, "prods": prods, "valmode": valmode, "hash": hashes,
             "hashmode": mode, "profile": profile, "ctor_sets": rng.chance(0.3), "alias": alias, "start_raw": rng.chance(0.3),
-            "words_as_terminals": rng.chance(0.4)}
+            "words_as_terminals": rng.weighted([(False, 5), (True, 3), ("mixed", 2)])}
 
 
 # ---------------------------------------------------------------------------
@@ -218,6 +218,10 @@ def word_values(case, word_keys):
     if case.get("words_as_terminals"):
         # the word given as Terminal objects instead of raw values (both are accepted)
         from pyformlang.cfg import Terminal
+        if case["words_as_terminals"] == "mixed":
+            # Terminal objects and raw values in one word; which comes first alternates with the word's length
+            n = len(word_keys)
+            return [Terminal(back[k]) if (i + n) % 2 else back[k] for i, k in enumerate(word_keys)]
         return [Terminal(back[k]) for k in word_keys]
     return [back[k] for k in word_keys]
 
